@@ -407,3 +407,31 @@ def _undef_path_feasible(flow, name, target):
                 seen.add(st)
                 todo.append(st)
     return False
+
+
+def expand_call_roots(ctx, func, roots, depth=2, _seen=None):
+    """add the `self.*` attribute roots (and, transitively, call roots) of the return values of
+    methods called as self.<m>(...) - a helper split must not hide a dependency"""
+    if _seen is None:
+        _seen = set()
+    out = set(roots)
+    if func.cls is None or depth <= 0:
+        return out
+    for r in list(roots):
+        if r[0] == 'call' and r[1].startswith('self.') and r[1].count('.') == 1:
+            mname = r[1].split('.')[1]
+            g = ctx.model.resolve_method(func.cls.name, mname)
+            if g is None or g.qual in _seen:
+                continue
+            _seen.add(g.qual)
+            gfl = ctx.flow(g)
+            sub = set()
+            for n in walk_no_nested(g.node):
+                if isinstance(n, ast.Return) and n.value is not None:
+                    sub |= gfl.roots(n.value, gfl.node_id_of(n))
+                elif isinstance(n, ast.Yield) and n.value is not None:
+                    sub |= gfl.roots(n.value, gfl.node_id_of(n))
+            sub = expand_call_roots(ctx, g, sub, depth - 1, _seen)
+            out |= {x for x in sub if x[0] in ('attr', 'call', 'attrname') and
+                    (x[0] != 'attr' or x[1].startswith('self.'))}
+    return out
